@@ -8,7 +8,9 @@ is read:
   * neutral variants - behaviour-preserving rewrites (ast.unparse round trip of
     every module: all positions, quoting and comments change; `pass` and docstring
     insertion in every function); the check must give the same verdict as on the
-    unchanged tree
+    unchanged tree.  A third variant renames every non-parameter local variable of
+    every function without nested scopes: there the check may also fail closed
+    (exit 2, "anchor vanished") but must never report a violation
 The self-test never influences the verdict on /repo; if it fails, the run ends
 with ANALYSIS-ERROR (exit 2): the checker is not to be believed.
 A mutant whose anchor text is not present in the current tree (the tree was edited)
@@ -266,6 +268,49 @@ class _PassInserter(ast.NodeTransformer):
     visit_AsyncFunctionDef = _visit_fn
 
 
+class _LocalRenamer(ast.NodeTransformer):
+    """Renames the local variables (not the parameters) of every function that has no nested function,
+    lambda or class, appending `_r`.  Names that are also comprehension targets, declared global/nonlocal,
+    or used by a star import / locals() are left alone."""
+
+    def visit_FunctionDef(self, node):
+        self.generic_visit(node)
+        nested = [n for n in ast.walk(node) if n is not node and isinstance(n, (ast.FunctionDef, ast.AsyncFunctionDef, ast.Lambda, ast.ClassDef))]
+        if nested:
+            return node
+        txt_calls = {n.func.id for n in ast.walk(node) if isinstance(n, ast.Call) and isinstance(n.func, ast.Name)}
+        if txt_calls & {"locals", "vars", "eval", "exec"}:
+            return node
+        a = node.args
+        params = {x.arg for x in a.posonlyargs + a.args + a.kwonlyargs} | ({a.vararg.arg} if a.vararg else set()) | ({a.kwarg.arg} if a.kwarg else set())
+        comp_targets = set()
+        declared = set()
+        stored = set()
+        for n in ast.walk(node):
+            if isinstance(n, ast.comprehension):
+                comp_targets |= {x.id for x in ast.walk(n.target) if isinstance(x, ast.Name)}
+            elif isinstance(n, (ast.Global, ast.Nonlocal)):
+                declared |= set(n.names)
+            elif isinstance(n, ast.Name) and isinstance(n.ctx, (ast.Store, ast.Del)):
+                stored.add(n.id)
+            elif isinstance(n, ast.ExceptHandler) and n.name:
+                stored.add(n.name)
+            elif isinstance(n, (ast.Import, ast.ImportFrom)):
+                for al in n.names:
+                    declared.add((al.asname or al.name).split(".")[0])
+        ren = stored - params - comp_targets - declared
+        if not ren:
+            return node
+        for n in ast.walk(node):
+            if isinstance(n, ast.Name) and n.id in ren:
+                n.id = n.id + "_r"
+            elif isinstance(n, ast.ExceptHandler) and n.name in ren:
+                n.name = n.name + "_r"
+        return node
+
+    visit_AsyncFunctionDef = visit_FunctionDef
+
+
 def _neutral(prop: str, kind: str, base_rc: int, base_lines: List[str]) -> dict:
     d = tempfile.mkdtemp(prefix="jvself-", dir="/var/tmp")
     try:
@@ -279,6 +324,8 @@ def _neutral(prop: str, kind: str, base_rc: int, base_lines: List[str]) -> dict:
                 tree = ast.parse(f.read())
             if kind == "unparse+pass":
                 tree = ast.fix_missing_locations(_PassInserter().visit(tree))
+            if kind == "rename-locals":
+                tree = ast.fix_missing_locations(_LocalRenamer().visit(tree))
             txt = ast.unparse(tree)
             compile(txt, p, "exec")
             with open(p, "w") as f:
@@ -287,6 +334,11 @@ def _neutral(prop: str, kind: str, base_rc: int, base_lines: List[str]) -> dict:
         lines = sorted(l.split("] ", 1)[-1] for l in out.splitlines() if l.startswith(("VIOLATION", "KNOWN-FINDING", "ANALYSIS-ERROR")))
         lines = [l.split(" replay=")[0] for l in lines]
         same = rc == base_rc and lines == base_lines
+        if kind == "rename-locals":
+            # several rules identify statements through local variable names; after a renaming they must
+            # either still decide (same verdict) or fail closed (exit 2) - never report a violation
+            viol = [l for l in lines if l.startswith("VIOLATION") and l not in base_lines]
+            same = same or (rc == 2 and not viol)
         return {"kind": kind, "status": "silent" if same else "DIFFERS", "rc": rc, "lines": lines[:6]}
     finally:
         shutil.rmtree(d, ignore_errors=True)
@@ -301,7 +353,7 @@ def run_for_property(prop: str, ctx_rc: int = 0) -> dict:
     jobs = int(os.environ.get("JV_JOBS", "16"))
     with ThreadPoolExecutor(max_workers=jobs) as ex:
         mfut = [ex.submit(_mutant, prop, m) for m in muts] + [ex.submit(_seed_mutant, prop, s) for s in _seeded_for(prop)]
-        nfut = [ex.submit(_neutral, prop, k, base_rc, base_lines) for k in ("unparse", "unparse+pass")]
+        nfut = [ex.submit(_neutral, prop, k, base_rc, base_lines) for k in ("unparse", "unparse+pass", "rename-locals")]
         mres = [f.result() for f in mfut]
         nres = [f.result() for f in nfut]
     summary = {
